@@ -138,7 +138,7 @@ impl<C: SimColor> ImageVisitor<C> for PixelProbe<'_> {
         let i = &self.sc.img;
         let bits = C::KIND.bits();
         let (w, h) = (i.w as i32, i.h as i32);
-        let mut check = |x: i32, y: i32, bad: &mut Option<String>| {
+        let check = |x: i32, y: i32, bad: &mut Option<String>| {
             if bad.is_some() {
                 return;
             }
